@@ -88,6 +88,13 @@ P == CASE Profile = "c04q" ->
              bodies |-> {"def"}, stmts |-> {"ag"}, maxmain |-> 1, nmains |-> 1,
              idirs |-> {<<Iu("bld"), Iu("sys")>>, <<Iu("sys"), Iu("bld")>>},
              forced |-> {<<>>}, nents |-> 2, plats |-> <<"p1", "P1">>]
+      [] Profile = "c06s" ->
+            \* C06/C10, small enough to enumerate EVERY scenario: one header name beside the mains and in the -I
+            \* directory whose body depends on X, two mains that include it in either form, two commands over one
+            \* or two platforms with X defined or not (every split of the lines over {}, {p1}, {p2}, {p1,p2})
+            [slots |-> <<<<"src", "h.h">>, <<"inc", "h.h">>>>,
+             bodies |-> {"testX"}, stmts |-> {"qh", "ah"}, maxmain |-> 1, nmains |-> 2,
+             idirs |-> {<<Iu("inc")>>}, forced |-> {<<>>}, nents |-> 2, plats |-> <<"p1", "p2">>]
       [] Profile = "c10" ->
             \* headers that change and test the macro state, included several times by one TU, inside and outside the root
             [slots |-> <<<<"inc", "h.h">>, <<"ext", "g.h">>, <<"inc", "g.h">>>>,
@@ -289,7 +296,7 @@ RepOut(plats) ==
    dist |-> [p \in plats |-> [q \in plats |-> Distance(tab, p, q)]],
    laws |-> RowsPartition(L) /\ DirIsSumOfChildren(L) /\ RootIsSummary(L) /\ PruneDropsExactlyUnused(L)
             /\ UsedUnusedPartition(L)]
-WithReports == Profile \in {"c06", "c14s"}
+WithReports == Profile \in {"c06", "c14s", "c06s"}
 
 \* ---- C18: what must be reported (one warning per occurrence) ---------------------------------
 \* files CBI parses: every code-base file, plus outside files some TU enters
